@@ -272,3 +272,80 @@ func (p *Presented) Accept(secret []byte, credHashAlg int64, credHash []byte, to
 	}
 	return true, ""
 }
+
+// TunnelRef states the COSE shape of a cipher suite on the wire.
+type TunnelRef struct {
+	AEAD           bool
+	EncAlg, MacAlg int64
+	IVLen          int
+}
+
+// TunnelTable maps cipher suite names to their wire shape (FDO 1.1 §3.6.4, RFC 9053/9459).
+var TunnelTable = map[string]TunnelRef{
+	"A128GCM":       {true, 1, 0, 12},
+	"A192GCM":       {true, 2, 0, 12},
+	"A256GCM":       {true, 3, 0, 12},
+	"COSEAES128CBC": {false, -65531, 5, 16},
+	"COSEAES128CTR": {false, -65534, 5, 16},
+	"COSEAES256CBC": {false, -65529, 6, 16},
+	"COSEAES256CTR": {false, -65532, 6, 16},
+}
+
+// CheckTunnelShape verifies that body is the authenticated-encryption object of
+// the negotiated suite and returns its IV; why is non-empty otherwise.
+func CheckTunnelShape(body []byte, ref TunnelRef) (iv []byte, why string) {
+	root, err := refcbor.ParseAll(body)
+	if err != nil || root.Kind != refcbor.Tag || len(root.Items) != 1 || root.Items[0].Kind != refcbor.Array {
+		return nil, "not a tagged COSE array"
+	}
+	arr := root.Items[0]
+	e0 := arr
+	if ref.AEAD {
+		if root.Val != 16 || len(arr.Items) != 3 {
+			return nil, fmt.Sprintf("expected COSE_Encrypt0 (tag 16), got tag %d with %d items", root.Val, len(arr.Items))
+		}
+	} else {
+		if root.Val != 17 || len(arr.Items) != 4 || arr.Items[2].Kind != refcbor.Bytes || arr.Items[0].Kind != refcbor.Bytes || arr.Items[3].Kind != refcbor.Bytes {
+			return nil, fmt.Sprintf("expected COSE_Mac0 (tag 17) around COSE_Encrypt0, got tag %d", root.Val)
+		}
+		pm, err := refcbor.ParseAll(arr.Items[0].Bytes)
+		if err != nil {
+			return nil, "Mac0 protected header does not parse"
+		}
+		if a, ok := refverify.NodeInt(refverify.MapGet(pm, 1)); !ok || a != ref.MacAlg {
+			return nil, fmt.Sprintf("Mac0 alg %d, negotiated %d", a, ref.MacAlg)
+		}
+		if n := len(arr.Items[3].Bytes); (ref.MacAlg == 5 && n != 32) || (ref.MacAlg == 6 && n != 48) {
+			return nil, fmt.Sprintf("Mac0 tag of %d bytes", n)
+		}
+		in, err := refcbor.ParseAll(arr.Items[2].Bytes)
+		if err != nil || in.Kind != refcbor.Array || len(in.Items) != 3 {
+			return nil, "Mac0 payload is not a COSE_Encrypt0"
+		}
+		e0 = in
+	}
+	if e0.Items[0].Kind != refcbor.Bytes || e0.Items[1].Kind != refcbor.Map {
+		return nil, "Encrypt0 headers"
+	}
+	var alg *refcbor.Node
+	if ref.AEAD {
+		pm, err := refcbor.ParseAll(e0.Items[0].Bytes)
+		if err != nil {
+			return nil, "Encrypt0 protected header does not parse"
+		}
+		alg = refverify.MapGet(pm, 1)
+	} else {
+		alg = refverify.MapGet(e0.Items[1], 1)
+	}
+	if a, ok := refverify.NodeInt(alg); !ok || a != ref.EncAlg {
+		return nil, fmt.Sprintf("Encrypt0 alg %d, negotiated %d", a, ref.EncAlg)
+	}
+	ivn := refverify.MapGet(e0.Items[1], 5)
+	if ivn == nil || ivn.Kind != refcbor.Bytes || len(ivn.Bytes) != ref.IVLen {
+		return nil, "IV header missing or of wrong length"
+	}
+	if e0.Items[2].Kind != refcbor.Bytes || len(e0.Items[2].Bytes) == 0 {
+		return nil, "no ciphertext"
+	}
+	return ivn.Bytes, ""
+}
